@@ -203,6 +203,7 @@ func ipv4Workload() {
 	}
 	r.Sample(map[string]any{"kind": "ipv4-text", "value": "192.168.1.17/24", "String": "192.168.1.17/24", "CIDRMask": "192.168.1.0/24", "parse(String)": "must be 192.168.1.17/24"})
 	ipv4Invalid()
+	ipv4Mutations()
 
 	// membership: every prefix length x base addresses x probe family, subnet as both roles
 	nb := r.Pick(12, 120)
